@@ -9,6 +9,15 @@ NCPU = os.cpu_count() or 4
 TLA_CP = "/opt/veriftools/tla/tla2tools.jar:/opt/veriftools/tla/CommunityModules-deps.jar"
 
 
+class HarnessPanic(Exception):
+    """The harness process ended with a Rust panic (exit 101) outside its per-case guards.  Every check passes on the unchanged
+    tree, where no such panic occurs; one that appears after a change to /repo is therefore raised by the code under test
+    (a library call the harness expected to be infallible, e.g. while building a value) and is reported as a violation."""
+    def __init__(self, args, message):
+        Exception.__init__(self, message)
+        self.vh_args, self.message = args, message
+
+
 class ToolError(Exception):
     pass
 
@@ -150,6 +159,7 @@ def vh(args, timeout=3600, stdin=None, crash=None):
     signal (a segfault or abort inside the library under test) this is reported as a violation, not as a tool error."""
     t = time.time()
     env = dict(os.environ)
+    env["VH_PANIC_VERBOSE"] = "1"
     if crash:
         env["VH_DEBUG_LAST"] = "1"
     timeout = int(timeout * float(os.environ.get("VERIF_TIMEOUT_SCALE", "1")))
@@ -182,6 +192,9 @@ def vh(args, timeout=3600, stdin=None, crash=None):
             rep["samples"].append(r["v"])
         elif t_ == "end":
             ended = True
+    if p.returncode == 101 and not ended:
+        msg = [l for l in p.stderr.splitlines() if l.startswith("panic:") or "panicked at" in l]
+        raise HarnessPanic(rep["args"], " ".join(msg[-3:])[:600] or "panic (no message)")
     if p.returncode != 0 or not ended:
         sys.stderr.write(p.stderr[-4000:])
         sys.stderr.write(p.stdout[-2000:])
